@@ -343,7 +343,7 @@ fn c02_parsers(case: &Case) {
 }
 
 /// Bytes for a live endpoint: never a declared size in (16 MiB, 2^62).
-fn gen_live_input() -> (Vec<u8>, String) {
+pub fn gen_live_input() -> (Vec<u8>, String) {
     loop {
         let (b, d) = gen_input();
         if b.len() >= HDR {
